@@ -124,19 +124,19 @@ Section C01.
 
   Lemma exec_keeps_receipts env s a s' : exec P env s a = Ok s' -> keeps (is_rkey P) s s'.
   Proof.
-    destruct a as [m cb|m cb1 cb2 cb3|cb|name ok| |name c ok|name c ok|addr chains addrs]; cbn [exec]; intro H.
+    destruct a as [m cb|m cb1 cb2 cb3|cb|name ok| |name c ok|name c ok|addr chains addrs|name c ok]; cbn [exec]; intro H.
     - eapply recv_handler_keeps_r; exact H.
     - eapply ack_handler_keeps_r; exact H.
     - destruct (cb_fail cb); [discriminate|].
       eapply hook_sends_keeps; [apply rkey_not_n | apply rkey_not_c | exact H].
     - destruct ok; inversion H; subst; apply keeps_refl.
     - inversion H; subst; apply keeps_refl.
-    - unfold register_client in H. destruct (valid_name P name); cbn in H; [|discriminate].
-      destruct (aget name (st_clients s)); [discriminate|]. destruct ok; inversion H; subst. intros k v _ X; exact X.
+    - apply register_client_ok in H as (Vn & Nn & _ & H); subst s'. intros k v _ X; exact X.
     - unfold toggle_client in H. destruct (valid_name P name); cbn in H; [|discriminate].
       destruct (aget name (st_clients s)) as [c0|]; [|discriminate].
       destruct (c0 =? c); [discriminate|]. destruct ok; inversion H; subst. intros k v _ X; exact X.
     - inversion H; subst. intros k v _ X; exact X.
+    - apply upgrade_client_ok in H; subst s'. apply keeps_refl.
   Qed.
 
   (** *** C01.receipts_monotone *)
@@ -414,18 +414,18 @@ Section C01.
   Lemma exec_log_ok env s a s' : log_ok s -> exec P env s a = Ok s' -> log_ok s'.
   Proof.
     intro L.
-    destruct a as [m cb|m cb1 cb2 cb3|cb|name ok| |name c ok|name c ok|addr chains addrs]; cbn [exec]; intro H.
+    destruct a as [m cb|m cb1 cb2 cb3|cb|name ok| |name c ok|name c ok|addr chains addrs|name c ok]; cbn [exec]; intro H.
     - eapply recv_handler_log_ok; eauto.
     - eapply ack_handler_log_ok; eauto.
     - destruct (cb_fail cb); [discriminate|]. eapply hook_log_ok; eauto.
     - destruct ok; inversion H; subst; exact L.
     - inversion H; subst; exact L.
-    - unfold register_client in H. destruct (valid_name P name); cbn in H; [|discriminate].
-      destruct (aget name (st_clients s)); [discriminate|]. destruct ok; inversion H; subst. exact L.
+    - apply register_client_ok in H as (Vn & Nn & _ & H); subst s'. exact L.
     - unfold toggle_client in H. destruct (valid_name P name); cbn in H; [|discriminate].
       destruct (aget name (st_clients s)) as [c0|]; [|discriminate].
       destruct (c0 =? c); [discriminate|]. destruct ok; inversion H; subst. exact L.
     - inversion H; subst. exact L.
+    - apply upgrade_client_ok in H; subst s'. exact L.
   Qed.
 
   Lemma run_log_ok ops : forall s, log_ok s -> log_ok (run P s ops).
